@@ -88,6 +88,20 @@ def vectors(ctx):
                     addv(f, ["bg", bg, st, msb, val])
                     if msb == 82:
                         V.append({"fn": "adsb.altitude_diff", "frame": f, "case": ["dbg", bg, st, val]})
+    # whole-number speeds: every pair of component magnitudes (field value - 1) whose hypotenuse is an integer.  Whatever route
+    # the implementation takes to the magnitude (sqrt, hypot, polar forms), a result one ulp below the integer truncates to the
+    # wrong knot exactly here and nowhere else - 1 065 pairs of the 1 022 x 1 022
+    import math
+    for a in range(1, 1023):
+        for b in range(a, 1023):
+            c = math.isqrt(a * a + b * b)
+            if c * c != a * a + b * b:
+                continue
+            for (x, y) in ((a, b), (b, a)):
+                combos = [(st, s1, s2) for st in (1, 2) for s1 in (0, 1) for s2 in (0, 1)]
+                for (st, s1, s2) in (combos if not ctx.quick else rng.sample(combos, 2)):
+                    f = tc19(rng, st, s1, x + 1, s2, y + 1)
+                    addv(f, ["pyth", st, s1, x, s2, y], (a + b + st) % 3)
     # random TC19 content
     for _ in range(ctx.pick(3000, 300000)):
         f = gen.set_bits(gen.rand_frame_df(rng, rng.choice([17, 18])), 33, 37, 19)
